@@ -10,6 +10,7 @@ import (
 	"testing"
 
 	"github.com/GuanceCloud/platypus/pkg/ast"
+	"github.com/GuanceCloud/platypus/pkg/engine"
 	plrt "github.com/GuanceCloud/platypus/pkg/engine/runtime"
 	"github.com/GuanceCloud/platypus/pkg/errchain"
 	"pgregory.net/rapid"
@@ -44,7 +45,21 @@ type script struct {
 
 type config []script
 
+// name gives script i of a set of n its name. Sets of even size use names that contain one another (lib.p,
+// my-lib.p, x-my-lib.p, ...; the missing script's name is a suffix of all of them): name handling must compare whole names.
 func name(i, n int) string {
+	if n%2 == 0 {
+		if i >= n {
+			return "b.p"
+		}
+		if i == 0 {
+			return "lib.p"
+		}
+		if i == 1 {
+			return "my-lib.p"
+		}
+		return strings.Repeat("x-", i-1) + "my-lib.p"
+	}
 	if i >= n {
 		return "missing.p"
 	}
@@ -574,6 +589,119 @@ func TestLongChains(t *testing.T) {
 		n += 2
 	}
 	evid.Exhaustive("use chains of 5..40 scripts x 6 endings x 6 text variants x 3 insertion orders; wide fans", n)
+}
+
+// TestRelink: the exported linker is given a set in which some scripts come from an earlier load (kept in memory)
+// and one script of the chain was replaced by a newly loaded version of the same name. Every use call of the set
+// that was linked is bound to the script of that name in that set: running the root executes the new version.
+func TestRelink(t *testing.T) {
+	rk.Check(t, "relink", 11, evid.Scale(400, 4000), func(t *rapid.T) {
+		n := rapid.IntRange(2, 6).Draw(t, "n")
+		nm := func(i int) string { return name(i, n|1) }
+		src := func(i, ver int) string {
+			s := fmt.Sprintf("add_key(v%d, %d)\n", i, ver)
+			if i+1 < n {
+				s += fmt.Sprintf("use(%q)\n", nm(i+1))
+				if i+2 < n && i%2 == 0 {
+					s += fmt.Sprintf("if v%d == %d { use(%q) }\n", i, ver, nm(i+2))
+				}
+			}
+			return s + fmt.Sprintf("add_key(done%d, %d)", i, ver)
+		}
+		texts := map[string]string{}
+		for i := 0; i < n; i++ {
+			texts[nm(i)] = src(i, 1)
+		}
+		call, check := impl.FuncTables(nil, nil)
+		ok1, errs1, crash := impl.LoadV1(texts, call, check)
+		if crash != nil || len(errs1) != 0 {
+			rk.Fail(t, "relink", texts, "harness: first load failed: %v %v", errs1, crash)
+		}
+		run := func(s *plrt.Script) map[string]any {
+			pt := impl.NewPoint("m", nil, map[string]any{})
+			if err, crash := impl.RunV1(s, pt, nil); err != nil || crash != nil {
+				rk.Fail(t, "relink", texts, "run failed: %v %v", err, crash)
+			}
+			return pt.Fields
+		}
+		want := func(vers []int) string {
+			m := map[string]any{}
+			for i := 0; i < n; i++ {
+				m[fmt.Sprintf("v%d", i)] = int64(vers[i])
+				m[fmt.Sprintf("done%d", i)] = int64(vers[i])
+			}
+			return fmt.Sprint(m)
+		}
+		vers := make([]int, n)
+		for i := range vers {
+			vers[i] = 1
+		}
+		if got := fmt.Sprint(run(ok1[nm(0)])); got != want(vers) {
+			rk.Fail(t, "relink", texts, "first load: root left %s, want %s", got, want(vers))
+		}
+		set := map[string]*plrt.Script{}
+		for k, v := range ok1 {
+			set[k] = v
+		}
+		// replace 1..3 scripts, one after the other, each time relinking the whole set
+		for round, nr := 0, rapid.IntRange(1, 3).Draw(t, "rounds"); round < nr; round++ {
+			k := rapid.IntRange(1, n-1).Draw(t, "replaced")
+			vers[k] = round + 2
+			one, errs, crash := impl.LoadV1(map[string]string{nm(k): func() string {
+				// the replaced script is loaded alone: its own use calls are re-bound by the relink
+				return src(k, vers[k])
+			}()}, call, check)
+			_ = errs // alone, its callees are missing: take the parsed script from whichever map holds it
+			if crash != nil {
+				rk.Fail(t, "relink", texts, "loading the new version panicked: %s", crash.Value)
+			}
+			var nu *plrt.Script
+			if one[nm(k)] != nil {
+				nu = one[nm(k)]
+			} else {
+				// a script whose callees are absent is rejected when loaded alone: load it together with stubs of its callees
+				stub := map[string]string{nm(k): src(k, vers[k])}
+				for j := k + 1; j < n; j++ {
+					stub[nm(j)] = "x = 1"
+				}
+				both, e2, c2 := impl.LoadV1(stub, call, check)
+				if c2 != nil || len(e2) != 0 {
+					rk.Fail(t, "relink", texts, "harness: loading the new version with stubs failed: %v %v", e2, c2)
+				}
+				nu = both[nm(k)]
+			}
+			set[nm(k)] = nu
+			var okr map[string]*plrt.Script
+			var errr map[string]error
+			func() {
+				defer func() {
+					if r := recover(); r != nil {
+						rk.Fail(t, "relink", texts, "EngineCallRefLinkAndCheck panicked: %v", r)
+					}
+				}()
+				okr, errr = engine.EngineCallRefLinkAndCheck(set, map[string]error{})
+			}()
+			if len(errr) != 0 || len(okr) != n {
+				rk.Fail(t, "relink", texts, "relink after replacing %s: accepted %d of %d, errors %v", nm(k), len(okr), n, errr)
+			}
+			for i := 0; i < n; i++ {
+				for ci, ce := range okr[nm(i)].CallRef {
+					b, _ := ce.PrivateData.(*plrt.Script)
+					if b == nil || b != okr[b.Name] {
+						rk.Fail(t, "relink", texts, "after replacing %s (round %d): use call %d of %s is bound to %v, which is not the script of that name in the linked set", nm(k), round, ci, nm(i), b)
+					}
+				}
+			}
+			if got := fmt.Sprint(run(okr[nm(0)])); got != want(vers) {
+				rk.Fail(t, "relink", texts, "after replacing %s by version %d and relinking: the root left %s, want %s", nm(k), vers[k], got, want(vers))
+			}
+			set = map[string]*plrt.Script{}
+			for k2, v := range okr {
+				set[k2] = v
+			}
+		}
+		evid.Case(fmt.Sprintf("relink/%d/%v", n, vers), true, "relink")
+	})
 }
 
 func TestReplays(t *testing.T) {
